@@ -541,6 +541,14 @@ class BaseCurve(Intface_BaseCurve):
         if oldctrlpoints is None and oldweights is None:
             self.knotvector = newknotvector
             return
+        oldstate = (self.__knotvector, self.__ctrlpoints, self.__weights)
+        try:
+            self.__apply(newknotvector, matrix, oldctrlpoints, oldweights)
+        except Exception:  # leave the curve as it was
+            self.__knotvector, self.__ctrlpoints, self.__weights = oldstate
+            raise
+
+    def __apply(self, newknotvector, matrix, oldctrlpoints, oldweights):
         self.ctrlpoints = None
         self.weights = None
         self.knotvector = newknotvector
